@@ -367,6 +367,13 @@ def run_compiled(case, conn, mode, names):
         return {}, e
 
 
+def short(e) -> str:
+    """Exception text without the TensorFlow / JAX traceback lines."""
+    lines = [ln.strip() for ln in str(e).splitlines()]
+    lines = [ln for ln in lines if ln and not ln.startswith(("File ", "~", "^"))]
+    return " | ".join(lines)[:400]
+
+
 def maxdiff(ref, got):
     ref, got = np.asarray(ref), np.asarray(got)
     if ref.shape != got.shape:
@@ -478,7 +485,7 @@ def prop_program(case, ctx):
     if err is not None:
         raise Violation(f"{tag}:execute:raises:{type(err).__name__}",
                         f"NumPy connector runs the program, {conn}/{mode} raises "
-                        f"{type(err).__name__}: {str(err)[:400]}")
+                        f"{type(err).__name__}: {short(err)}")
     tol = TOL[case.get("dtype", "f64")]
     order = list(extras)
     k = len(case["gates"]) % max(1, len(order))
@@ -490,7 +497,7 @@ def prop_program(case, ctx):
         if isinstance(g, Exception):
             raise Violation(f"{tag}:{name}:raises:{type(g).__name__}",
                             f"{name} is computed under NumPy but raises under {conn}/{mode}: "
-                            f"{type(g).__name__}: {str(g)[:400]}")
+                            f"{type(g).__name__}: {short(g)}")
         scale = float(np.max(np.abs(r))) if np.size(r) else 0.0
         if not np.isfinite(scale):
             ctx.count(f"numpy_nonfinite:{name}")
@@ -690,7 +697,7 @@ def prop_trace_support(c, ctx):
         raise Violation(
             f"C09:{c['sim']}:{c['conn']}:{c['mode']}:trace:{c['gate']}",
             f"{c['gate']} used to be traceable under {c['conn']}/{c['mode']}, now raises "
-            f"{type(err).__name__}: {str(err)[:300]}")
+            f"{type(err).__name__}: {short(err)}")
     if not expected and ok:
         ctx.count(f"trace_table_stale:{c['sim']}:{c['conn']}:{c['mode']}:{c['gate']}")
 
